@@ -38,6 +38,9 @@ const C14: &[Scn] = &[
   Scn { schema: "root = g<int, tstr>\ng<A, B> = { a: A, b: B, ? c: g<B, A> }\n", docs: &[('j', r#"{"a":1,"b":"x","c":{"a":"y","b":2}}"#), ('j', r#"{"a":1,"b":"x","c":{"a":3,"b":2}}"#), ('c', "a261610161626178")] },
   Scn { schema: "root = { kind: \"a\" / \"b\", ? n: uint .size 1, $$ext }\n$$ext //= ( x: int )\n", docs: &[('j', r#"{"kind":"a","n":255,"x":1}"#), ('j', r#"{"kind":"c","n":256}"#), ('j', r#"{"kind":"b","x":"s"}"#)] },
   Scn { schema: "root = [1*3 p]\np = [tstr, int] / { name: tstr .pcre \"^[A-Z][a-z]+$\" }\n", docs: &[('j', r#"[{"name":"Alice"},{"name":"bob"}]"#), ('j', r#"[]"#), ('j', r#"[{"name":"Carol"}]"#)] },
+  // reference chains and a zero-progress cycle through five rules: the recursion guard keeps a per-call set of
+  // (rule, location) names, keyed by this execution's hash keys
+  Scn { schema: "root = { k: a, ? l: [* e1] }\na = b\nb = c\nc = d\nd = e\ne = a\ne1 = e2\ne2 = e3\ne3 = int\n", docs: &[('j', r#"{"k":1}"#), ('j', r#"{"k":"s","l":[1,"x"]}"#), ('c', "a1616b01"), ('j', r#"{"k":[],"l":[]}"#)] },
 ];
 
 /// schemas that are malformed in several places at once: *which* error is reported must not depend on
